@@ -11,7 +11,7 @@ R-C10-5  recovery is keyed by the whole seed (= R-C19-2): the MAC key of every n
 """
 from bpsa.facts import callee_decl, callee_name
 from bpsa.normal import canon
-from bpsa.terms import walk, short, TERM_IDX, mk_elem
+from bpsa.terms import ev_site, walk, short, TERM_IDX, mk_elem
 from .common import variants_under, guard_table
 from . import wire, msm, weights
 
@@ -122,7 +122,7 @@ def _run(ctx):
         for (sw, cond, arms, tg) in deps:
             for x in walk(cond):
                 if x.tag == 'ev' and x[4]:
-                    bkey, ebb = x[4][-1]
+                    bkey, ebb = ev_site(x)
                     eb = ctx.facts.by_key.get(bkey)
                     if eb is None:
                         continue
